@@ -10,7 +10,7 @@ LEVEL = 'exploration'
 NEEDS = ('threads',)
 QUICK = dict(runs=30000, wall=85)
 THOROUGH = dict(runs=600000, wall=1500)
-RULE = ('scenario = tee(source, n_forks in {2,3}, buffer_size in {2,3,5}); source length in {0,1,2,window,window+3,..}, optional source '
+RULE = ('scenario = tee(source, n_forks in {2,3}, buffer_size in {2,3,5}); source length in {0,1,2,window,window+3,..}, elements ints or (40%) unusual legal values (None, False, '', (), 0, exception objects/classes as data), optional source '
         'failure at position j; each fork consumed in its own thread with generated virtual delays; line pre-emption inside _tee.py in '
         '~70% of runs, starvation weights so that one fork lags; oracle: every fork list == source prefix, all forks end the way the '
         'source ended, source pulled once per element and never more than buffer_size+2 beyond the slowest fork, no deadlock/no-progress')
@@ -26,6 +26,9 @@ def gen(rng, tier):
     sc = {'n': n, 'n_forks': nf, 'buffer_size': bs,
           'fork_delays': [[rng.choice([0, 0, 0, 0.001, 0.01, 0.05]) for _ in range(rng.choice([1, 2, 3]))] for _ in range(nf)],
           'src_delays': [rng.choice([0, 0, 0.001, 0.01])], 'start_delays': [rng.choice([0, 0, 0.001, 0.02]) for _ in range(nf)]}
+    if n and rng.random() < 0.4:
+        # elements that are unusual but legal values: None, falsy values, exception objects and classes as DATA
+        sc['odd'] = {str(rng.randrange(n)): rng.choice(streams.ODD_KINDS) for _ in range(rng.choice([1, 1, 2, 3]))}
     if rng.random() < 0.35:
         sc['src_fail'] = {'pos': rng.randrange(0, n + 1), 'exc': exc_choice(rng, ['ExcA', 'ExcB', 'KeyError'])}
     cfg = swarm(rng, racy=0.15, line=0.7, strategies=('random', 'weighted', 'weighted', 'weighted', 'pct', 'sticky'), max_time=300.0)
@@ -50,10 +53,14 @@ def shrink(sc):
         yield dict(sc, src_delays=[0])
     if sc['buffer_size'] > 2:
         yield dict(sc, buffer_size=sc['buffer_size'] - 1)
+    if sc.get('odd'):
+        for k in sc['odd']:
+            yield dict(sc, odd={a: b for a, b in sc['odd'].items() if a != k})
 
 
 def tags(sim, sc, obs):
     return ['forks:%d' % sc['n_forks'], 'window:%d' % sc['buffer_size'], 'source:' + ('fails' if sc.get('src_fail') else 'exhausts'),
+            ] + sorted(set('element:' + k for k in (sc.get('odd') or {}).values())) + [
             'peak-lead=%s' % ('bound' if obs.get('peak') == sc['buffer_size'] + 2 else 'below')]
 
 
@@ -64,7 +71,7 @@ def nontrivial(sim, sc, obs):
 def run(sim, sc):
     from mpservice.streamer import tee
     n, nf, bs = sc['n'], sc['n_forks'], sc['buffer_size']
-    source = streams.Source(sim, n, sc['src_delays'], sc.get('src_fail'))
+    source = streams.Source(sim, n, sc['src_delays'], sc.get('src_fail'), odd=sc.get('odd'))
     progress = [0] * nf
     state = {'peak': 0}
     bound = bs + 2
@@ -109,16 +116,16 @@ def run(sim, sc):
     if r:
         sim.violation(*r)
     f = sc.get('src_fail')
-    want = list(range(n if f is None else min(n, f['pos'])))
+    want = [streams.odd_value((sc.get('odd') or {}).get(str(i)), i) for i in range(n if f is None else min(n, f['pos']))]
     want_end = 'exhausted' if f is None else [f['exc'], f['pos']]
     for i, (out, ending) in enumerate(results):
         if out != want:
             sig = 'fork:elements-differ-from-source'
-            if sorted(out) == want:
+            if not sc.get('odd') and sorted(out) == want:
                 sig = 'fork:elements-out-of-order'
             elif out == want[:len(out)]:
                 sig = 'fork:elements-missing-at-the-end'
-            sim.violation(sig, {'fork': i, 'got': out, 'want': want, 'ending': ending})
+            sim.violation(sig, {'fork': i, 'got': repr(out), 'want': repr(want), 'ending': ending})
         if ending != want_end:
             sim.violation('fork:ended-differently-from-the-source:%s-instead-of-%s' % (
                 'exhausted' if ending == 'exhausted' else 'exception', 'exhausted' if want_end == 'exhausted' else 'exception'),
